@@ -289,6 +289,14 @@ func indent(s string) string { return s }
 func (g *G) iterExpr(s *scope) string {
 	gens := g.defsOf(Gen)
 	n := g.T.Draw(8)
+	if n == 7 && g.T.Draw(4) == 0 {
+		// an iterator expression that is a plain value: it yields nothing, so the loop runs zero times
+		g.feat("iter.no_call")
+		if len(s.arrs) > 0 && g.T.Bool() {
+			return s.arrs[g.T.Draw(len(s.arrs))]
+		}
+		return g.atom(s)
+	}
 	switch {
 	case n <= 1 || (len(gens) == 0 && n <= 4):
 		g.feat("iter.fromto")
